@@ -1135,6 +1135,12 @@ type zzC06ProbeIn struct {
 	// does (update in place where possible).
 	PrevTable []zzC06RW           `json:"prev_table"`
 	QS        [][]json.RawMessage `json:"qs"`
+	// Life, if any, is everything the live server went through before: the
+	// tables it was given one after the other and the queries asked with each.
+	Life []struct {
+		Table []zzC06RW           `json:"table"`
+		QS    [][]json.RawMessage `json:"qs"`
+	} `json:"life"`
 	Expect    []struct {
 		Ask    [][]json.RawMessage `json:"ask"`
 		CNAME  []string            `json:"cname"`
@@ -1206,7 +1212,32 @@ func TestZZVerifC06PipeProbe(t *testing.T) {
 			rws[j] = conc.rewrite(&in.Tab[j])
 		}
 
-		if in.PrevTable != nil {
+		askAll := func(ps [][]json.RawMessage) {
+			for _, p := range ps {
+				var h []string
+				var qt string
+				if len(p) == 2 && json.Unmarshal(p[0], &h) == nil && json.Unmarshal(p[1], &qt) == nil {
+					_, _ = z.query(zzC06Name(h), zzC06QTypes[qt], 3*time.Second)
+				}
+			}
+		}
+
+		for k, st := range in.Life {
+			var lerr error
+			if k == 0 {
+				lerr = z.replaceTable(st.Table)
+			} else {
+				lerr = z.setTable(st.Table)
+			}
+
+			if lerr != nil {
+				t.Fatalf("rehearsing the life of the server: %v", lerr)
+			}
+
+			askAll(st.QS)
+		}
+
+		if in.PrevTable != nil && len(in.Life) == 0 {
 			if err := z.replaceTable(in.PrevTable); err != nil {
 				t.Fatalf("setting previous table: %v", err)
 			}
